@@ -1,3 +1,3 @@
 From Coq Require Import ZArith Extraction ExtrOcamlBasic.
 From CyVerif Require Import Lib.CInt Model.M_PrangeShare.
-Extraction "../ocaml/gen/m_prangeshare.ml" ex_keep omp_ops classify region_errors region_wf region_par region_seq final_assignments.
+Extraction "../ocaml/gen/m_prangeshare.ml" ex_keep omp_ops classify region_errors region_wf region_par region_seq final_assignments no_fixes all_fixes.
